@@ -8,8 +8,9 @@ namespace PySMT.Parser.Agree
 open PySMT PySMT.Parser PySMT.Std PySMT.Sexp
 
 theorem pnameOK_not_lit {tok : String} (h : Lit.litHead tok = true) : pnameOK tok = false := by
+  suffices hs : pnameOK0 tok = false by simp [pnameOK, hs]
   unfold Lit.litHead at h
-  unfold pnameOK
+  unfold pnameOK0
   split at h
   · rename_i c cs heq
     rw [heq]
